@@ -27,7 +27,7 @@ func init() {
 const relCheck = "lang/check"
 
 func runC01(c *core.Ctx) {
-	k := newG(c, "./lang/check", "./internal/cgen")
+	k := newG(c, "./lang/check", "./internal/cgen", "./lang/parse")
 	g := k.g
 	tok := func(name string) types.Object { return k.obj("anchors", "lang/token", name) }
 
@@ -541,6 +541,7 @@ func runC01(c *core.Ctx) {
 	// ---------------- more obligations ----------------
 	runC01More(k)
 	runC01ArgChecks(k)
+	runC01IterJump(k)
 	runC01Choose(k)
 	runC02Facts(k) // a false fact is an unsafe accepted program: the fact discipline is a C01 mechanism too
 
